@@ -71,7 +71,7 @@ PROPS["C04"] = dict(
         "BLS (blst) is trusted: a signature verifies iff it was produced by the matching key over the same bytes",
         "held on the generated committees/corruptions only",
     ],
-    stages=[dict(name="release", flavour="release", **E2)],
+    stages=[dict(name="release", flavour="release", **E2), dict(name="asan", flavour="asan", shards=8, tiers=["thorough"], args={"cases": 40}, **E2)],
     floors={"quick": {"boundary_exactly_reaching_quorum": 200, "boundary_just_below_quorum": 200, "overlap_corruptions": 50, "incremental_qc_reached_quorum": 200, "CommitQC_genuine": 500, "TimeoutQC_genuine": 500, "nested_forgery_after_genuine_in_map_order": 100, "nested_forgery_before_genuine_in_map_order": 100},
             "thorough": {"boundary_exactly_reaching_quorum": 2000}},
 )
@@ -133,7 +133,7 @@ PROPS["C01"] = dict(
     "(equivocating-leader, hidden-commit, timeout-liar, lagging-sync) create the shapes known to threaten agreement. Every block any correct node "
     "hands to storage is checked against a global map, the per-node sequence, and FinalBlock::verify.",
     assumptions=_SIM_ASSUME,
-    stages=[dict(name="sim", flavour="release", **SIM)],
+    stages=[dict(name="sim", flavour="release", **SIM), dict(name="sim-asan", flavour="asan", shards=8, tiers=["thorough"], args={"cases": 6}, **SIM)],
     floors={"quick": {"cases_with_commits": 60, "blocks_handed_to_storage": 2000, "byzantine_messages_accepted_total": 200, "cases_hidden-commit": 10, "cases_equivocating-leader": 10},
             "thorough": {"cases_with_commits": 1000}},
 )
